@@ -3,7 +3,7 @@
    [stepper : t -> dt -> dt_last_done -> (t', dt', dt_last_done')] (its concrete time-update kinds
    are in Run.v) and exit conditions raised at step boundaries (escape, encounter, collision,
    user stop, SIGINT) are a parameter [hb : step index -> option status].
-   Not modelled: PAUSED/SCREENSHOT UI states, usleep, MPI, N == 0 (hypothesis has_particles),
+   Not modelled: PAUSED/SCREENSHOT UI states, usleep, MPI; N == 0 is the history [np] of loop_np below,
    tmax = INFINITY is the flag [tmax_inf].  copysign(1.,dt) is modelled as (dt<0 ? -1 : 1), i.e.
    dt = -0.0 is excluded.  Definitions only. *)
 From Coq Require Import ZArith List Bool.
@@ -13,6 +13,7 @@ Import ListNotations.
 Definition ST_LAST_STEP : Z := (-2)%Z.
 Definition ST_RUNNING : Z := (-1)%Z.
 Definition ST_SUCCESS : Z := 0%Z.
+Definition ST_GENERIC_ERROR : Z := 1%Z.
 Definition ST_NO_PARTICLES : Z := 2%Z.
 
 Section Integrate.
@@ -100,6 +101,56 @@ Fixpoint integrate_seq (fuel : nat) (targets : list T) (s : @st T) : option (@st
   end.
 End Seq.
 
+
+(* The same loop with the particle count made part of the history: [np k] says whether the simulation still holds
+   particles at the step boundary after k steps (steps_done, absolute).  reb_check_exit tests !r->N AFTER the time
+   test, so an empty simulation overrides every other outcome of that boundary, SUCCESS included.  [loop] /
+   [integrate] / [integrate_seq] above are the instances np = (fun _ => true) (ProofsNP.v). *)
+Section IntegrateNP.
+Context {T : Type} (N : Num T).
+Context (c1em12 c1em200 : T) (stepper : T -> T -> T -> T * T * T) (hb : nat -> option Z) (np : nat -> bool).
+Context (tmax : T) (tmax_inf : bool) (exact : bool).
+Fixpoint loop_np (fuel : nat) (s : @st T) : option (@st T) :=
+  let s1 := check_exit N c1em12 c1em200 tmax tmax_inf exact (np (steps s)) s in
+  if (0 <=? status s1)%Z then Some s1
+  else match fuel with
+       | O => None
+       | S f => loop_np f (do_step stepper hb s1)
+       end.
+(* the argument test of reb_simulation_integrate_raw (/repo 7f3beee): no step can bring t closer to tmax when the step
+   is zero or NaN or the target is NaN (x is NaN iff x == x fails).  The error it raises is seen by the first
+   reb_check_exit, which returns GENERIC_ERROR before any step -- unless the simulation is empty (NO_PARTICLES is
+   tested last) *)
+Definition isnan (x : T) : bool := negb (neqb N x x).
+Definition degenerate (t0 dt0 : T) : bool :=
+  isnan dt0 || isnan tmax || (neqb N dt0 (nzero N) && negb (neqb N tmax t0)).
+Definition integrate_np (fuel : nat) (t0 dt0 : T) (steps0 : nat) : option (@st T) :=
+  let dt1 := if neqb N tmax t0 then dt0
+             else if nltb N t0 tmax then nabs N dt0 else nneg N (nabs N dt0) in
+  if degenerate t0 dt0
+  then Some (mkSt t0 dt1 (nzero N) (if np steps0 then ST_GENERIC_ERROR else ST_NO_PARTICLES) steps0 dt1)
+  else
+  let s0 := mkSt t0 dt1 (nzero N) ST_RUNNING steps0 dt1 in
+  let s0 := match hb steps0 with Some c => mkSt t0 dt1 (nzero N) c steps0 dt1 | None => s0 end in
+  match loop_np fuel s0 with
+  | None => None
+  | Some s => Some (if exact then mkSt (t s) (lfd s) (dtld s) (status s) (steps s) (lfd s) else s)
+  end.
+End IntegrateNP.
+
+Section SeqNP.
+Context {T : Type} (N : Num T).
+Context (c1em12 c1em200 : T) (stepper : T -> T -> T -> T * T * T) (hb : nat -> option Z) (np : nat -> bool) (exact : bool).
+Fixpoint integrate_seq_np (fuel : nat) (targets : list T) (s : @st T) : option (@st T) :=
+  match targets with
+  | [] => Some s
+  | tm :: rest =>
+      match integrate_np N c1em12 c1em200 stepper hb np tm false exact fuel (t s) (dt s) (steps s) with
+      | None => None
+      | Some s1 => if (status s1 =? 0)%Z then integrate_seq_np fuel rest s1 else Some s1
+      end
+  end.
+End SeqNP.
 
 (* concrete time-update kinds of the integrators (see DESIGN C08) *)
 Section Steppers.
